@@ -305,6 +305,22 @@ func genSpec(h *vh.H, name string, wide bool) *Spec {
 			// an option declared with its prefix
 			s.EOpts[len(s.EOpts)-1] = s.enumPrefix() + s.EOpts[len(s.EOpts)-1]
 		}
+		if wide {
+			// descriptions: of the enum, and of none / some / all options — including the zero option
+			// when it is declared explicitly
+			if h.Chance(1, 4) {
+				s.EDesc = ps(vh.Pick(h, descs))
+			}
+			if h.Chance(1, 2) {
+				s.EODesc = make([]string, len(s.EOpts))
+				all := h.Chance(1, 3)
+				for i := range s.EODesc {
+					if all || h.Chance(1, 2) {
+						s.EODesc[i] = vh.Pick(h, descs)
+					}
+				}
+			}
+		}
 		if withRules {
 			s.R = true
 			pick := func() []string {
